@@ -13,7 +13,7 @@ import sys
 
 from . import core, tlc
 
-MAX_TYPES, MAX_NAMES, MAX_CTX = 12, 16, 12
+MAX_TYPES, MAX_NAMES, MAX_CTX = 12, 16, 24
 NAME_OK = re.compile(r"\w+")
 _cache = {}
 
@@ -85,9 +85,20 @@ def project(tid, events):
             inner.setdefault(e["within"], e)
         if e["ev"] == "ctx.view":
             view[e["ctx"]] = e["of"]
+        if e.get("within") and e["ev"] == "svc.start":
+            inner.setdefault(("svc", e["within"]), e)
     for e in events:
         ev = e["ev"]
-        if ev in ("reg", "cb.begin", "cb.end", "res.event", "ctx.view"):
+        if ev in ("reg", "cb.begin", "cb.end", "res.event", "ctx.view", "svc.start"):
+            continue
+        if ev == "comp.svc":
+            # the service task a ComponentContext was asked to start, next to what it asked the real context to start
+            if out and out[-1]["ev"] == "outside":
+                break
+            i = inner.get(("svc", e["call"]))
+            out.append({"ev": "csvc", "func": V(e["func"]), "name": str(e["name"]), "action": e["action"], "r": "ok" if e["r"] == "ok" else "other", "delegated": i is not None,
+                        "in": {"func": V(i["func"]), "name": str(i["name"]), "action": i["action"], "r": "ok" if i["r"] == "ok" else "other"} if i else
+                              {"func": 0, "name": "", "action": "", "r": ""}})
             continue
         if ev == "ctx.new":
             while e["parent"] in view:
@@ -181,7 +192,7 @@ def project(tid, events):
     return {"id": tid, "events": out}
 
 
-PROPS = ("C01", "C02", "C03", "C04", "C13", "C14", "C18")
+PROPS = ("C01", "C02", "C03", "C04", "C08", "C13", "C14", "C18")
 
 
 def verdicts():
